@@ -20,7 +20,7 @@ from checks.nodecommon import Result, record, generic_replay
 
 PID = "C11"
 RULE = ("histories of 1..40 events {advance 1..n s, application request (traffic), DWR from the peer, DWA "
-        "from the peer, partial bytes} on an inbound or outbound ready connection x (node idle, node dwa, "
+        "from the peer, the peer stops / resumes reading (the node's output piles up)} on an inbound or outbound ready connection x (node idle, node dwa, "
         "peer idle, peer dwa) in 1..60 s incl. unset peer values x wakeup 1..10 s; horizons up to 10x the "
         "largest timeout. Non-trivial: >= 1 idle episode (a DWR was due) with a DWA outcome (answered, "
         "late, never); distinct by (configuration, script).")
@@ -70,7 +70,16 @@ def evaluate(case) -> Result:
         episodes = outcomes = 0
         state_id = w.node.state_id
         closed_handled = False
+        blocked = False
+        # clock advances are observed second by second (a queued DWR behind a blocked socket shows
+        # only in the connection state, which must be sampled before the DWA timeout closes it)
+        expanded = []
         for ev in case["events"]:
+            if ev[0] == "ADV" and ev[1] > 1:
+                expanded += [["ADV", 1]] * ev[1]
+            else:
+                expanded.append(ev)
+        for ev in expanded:
             kind = ev[0]
             fed = None
             if c.node_closed:
@@ -81,6 +90,25 @@ def evaluate(case) -> Result:
                 hbh += 1
                 w.feed_msg(c, {"k": "REQ", "host": "peer1.example", "hbh": hbh, "e2e": hbh})
                 fed = "REQ"
+            elif kind == "BLOCK_TX":
+                blocked = True
+                c.remote.sock.tx_blocked = True       # the peer stops reading: output piles up in the node
+                res.classes.append("tx-blocked")
+                continue
+            elif kind == "UNBLOCK_TX":
+                if not blocked:
+                    continue
+                c.remote.sock.tx_blocked = False
+                w.run()
+                # everything queued meanwhile is flushed now (frame times = flush time): not judged by time
+                n_out = len(c.refresh())
+                blocked = False
+                if not waiting and not c.node_closed and nc.state == pm.PEER_READY_WAITING_DWA:
+                    # the wake-up caused by the socket becoming writable may itself find the idle timer expired
+                    waiting = True
+                    t_dwr = now() - nc.dwa_wait_time
+                    episodes += 1
+                continue
             elif kind == "BYTES":
                 w.feed(c, b"\x01")          # a single byte of a never-completed frame: still 'bytes arrived'
                 # do not count as frame; keep the stream aligned by never completing it -> only use once at the end
@@ -98,8 +126,15 @@ def evaluate(case) -> Result:
                 fed = "DWA"
             new = c.refresh()[n_out:]
             n_out = len(c.out)
+            if blocked and not waiting and not c.node_closed and nc.state == pm.PEER_READY_WAITING_DWA:
+                # a DWR was queued behind the blocked socket: visible through the state marking only
+                waiting = True
+                t_dwr = now() - nc.dwa_wait_time
+                episodes += 1
+                if t_dwr - ref <= idle_T and fed is None:
+                    res.v("C11/dwr-early", f"DWR queued {t_dwr - ref}s after the last bytes, idle timeout {idle_T}s")
             # frames the node wrote during this step, in order
-            for f in new:
+            for f in ([] if blocked else new):
                 if f.code == W.CMD_DW and f.is_request:
                     # a DWR from the node
                     if waiting:
@@ -134,7 +169,7 @@ def evaluate(case) -> Result:
                 break
             if fed is not None:
                 ref = now()
-                if fed == "DWR":
+                if fed == "DWR" and not blocked:
                     dwas = [f for f in new if f.code == W.CMD_DW and not f.is_request and f.h["hbh"] == hbh]
                     if len(dwas) != 1:
                         res.v("C11/dwr-not-answered", f"DWR from the peer in state waiting={waiting}: {len(dwas)} DWA")
@@ -180,7 +215,8 @@ def shard_main(shard, nshards, tier, scale):
                   "p_dwa": draw(st.one_of(st.none(), st.integers(1, hi)))}
         big = max(timers["idle"], timers["dwa"], timers["p_idle"] or 0, timers["p_dwa"] or 0)
         adv = st.tuples(st.just("ADV"), st.one_of(st.integers(1, 3), st.integers(1, max(2, big + 12))))
-        ev = st.one_of(adv, adv, adv, st.tuples(st.just("TRAFFIC")), st.tuples(st.just("DWR")), st.tuples(st.just("DWA")))
+        ev = st.one_of(adv, adv, adv, adv, st.tuples(st.just("TRAFFIC")), st.tuples(st.just("DWR")), st.tuples(st.just("DWA")),
+                       st.tuples(st.just("BLOCK_TX")), st.tuples(st.just("UNBLOCK_TX")))
         return {"dir": draw(st.sampled_from(["in", "out"])), "timers": timers, "seed": draw(st.integers(0, 3)),
                 "events": [list(e) for e in draw(st.lists(ev, min_size=1, max_size=40))]}
 
@@ -220,7 +256,7 @@ def run(tier, scale=1.0):
     rec = Recorder(PID)
     for d in hyp.pool_run(shard_main, (tier, scale)):
         rec.merge(d)
-    required = {"dir:in": 1, "dir:out": 1, "episodes:2": 1, "closed-by-watchdog": 1, "peer-idle:True": 1,
+    required = {"tx-blocked": 1, "dir:in": 1, "dir:out": 1, "episodes:2": 1, "closed-by-watchdog": 1, "peer-idle:True": 1,
                 "peer-dwa:True": 1, "outcomes:2": 1}
     return finish(rec, tier=tier, level="exploration", rule=RULE, assumptions=ASSUME, t0=t0,
                   required_classes=required)
